@@ -10,6 +10,7 @@ from ..core import AnalysisError, FuncInfo, Repo, unparse
 from ..prov import callee_name
 from ..report import Finding, RuleResult
 from . import c01, c06, c12
+from . import _c05_util as U5
 
 EXPLANATION = (
     "C05.validators: must-pass-through on the CFG of ProblemParser.parse_grounded_predicate / parse_grounded_numeric_fluent: every "
@@ -20,7 +21,19 @@ EXPLANATION = (
     "arm. C05.sections: parse_problem has an arm per section storing into the matching Problem field. C05.leftover: parse_objects "
     "flushes the trailing untyped group. C05.direction: is_sub_type(receiver = object's type, argument = declared type). C05.goal: "
     "goal literals go through the same validator as initial facts. C05.value: the fluent value is float(third item) stored with "
-    "set_value under the fluent's ground name. assert-based checks disappear under python -O (stated in evidence)."
+    "set_value under the fluent's ground name. assert-based checks disappear under python -O (stated in evidence). "
+    "C05.gates (valuations of guard atoms, L.Guards): with unequal lengths no return of the two validators is reachable and with equal "
+    "lengths one is; an assignment of exactly 3 items reaches the store of initial fluents, one of 2 / 4 items does not; after an accepted "
+    "component / conjunct was stored no raise statement is reachable; the goal's head is compared with 'and' (mismatch: no store "
+    "reachable); a conjunct whose head is an operator reaches goal_state_fluents only, one whose head is a predicate goal_state_predicates "
+    "only, on every path through a turn; a plain token never reaches the recursive call of parse_objects and a nested list never the name "
+    "collection; the occurrence-count threshold of repeating_variables lies between 1 and 2. C05.positions (provenance paths): argument "
+    "tokens = tokens[1:], conjuncts = goal[1:], nested block content = block[1:], keyword / table tests read token 0 of the component. "
+    "C05.pairing: GroundedPredicate(name, signature, object_mapping {parameter: object}), PDDLObject(name <- token, type <- domain.types), "
+    "construct_expression_tree(conjunct, domain.functions). C05.walks: every :init item reaches the stores of parse_state_component "
+    "(no slice / range offset, loop not left early), the goal loop and the object token loop are not left early, the result of the "
+    "recursive call flows into the returned objects, a `while cursor < len(tokens)` walk starts at 0, has exactly that condition and on "
+    "every path through a turn advances the cursor by the tokens it read."
 )
 UNDECIDED = "that the stored objects / facts / values equal those written for every problem text; :metric; behaviour under python -O"
 
@@ -123,20 +136,21 @@ def rule_validators(repo: Repo, rid: str = "C05.validators", cls: str = "Problem
         # (a) arity
         r.site(f"{f.qn} [arity]")
         ar = _raising_if_nodes(g, lambda t: _is_arity_test(t, p))
-        if _dominated(g, dom, rets, ar):
+        if _dominated(g, dom, rets, ar) or _arity_decides(f, p, g, rets):
             r.ok({"function": f.qn, "arity_check_dominates_return": True})
         else:
             r.fail(Finding(rid, f, "missing:arity-check", "a return is reachable without an arity comparison that raises"))
         # (b) subtype check over all arguments
         r.site(f"{f.qn} [types]")
         sc = _subtype_check_nodes(repo, f, g)
-        if _dominated(g, dom, rets, sc):
+        if _dominated(g, dom, _returns_with_arguments(f, p, g, rets), sc):
             r.ok({"function": f.qn, "subtype_check_dominates_return": True})
         else:
             r.fail(Finding(rid, f, "missing:type-check", "a return is reachable without a per-argument is_sub_type check that raises"))
         # (c) lookup of every argument in objects + constants
         r.site(f"{f.qn} [object lookup]")
-        ok_lookup = _lookup_all_args(repo, f, p) or any(_lookup_all_args(repo, t, L.prov(repo, t)) for t in _local_helpers(repo, f))
+        ok_lookup = _lookup_all_args(repo, f, p) or any(_lookup_all_args(repo, t, L.prov(repo, t)) for t in _local_helpers(repo, f)) or \
+            _lookup_by_argument(f, p)
         if ok_lookup:
             r.ok({"function": f.qn, "every_argument_looked_up_in": "objects + constants (KeyError when undeclared)"})
         else:
@@ -197,6 +211,79 @@ def rule_validators(repo: Repo, rid: str = "C05.validators", cls: str = "Problem
     r.notes.append("assert statements count as raising checks; under `python -O` they are compiled away")
     r.require_sites(9)
     return r
+
+
+ARG_PASS = ("arg0:list", "arg0:tuple", "arg0:enumerate", "arg0:zip", "arg1:zip", "arg0:iter", "arg0:reversed", "unpack:0", "unpack:1", "elem", "item")
+
+
+def _argument_list_path(x: tuple) -> bool:
+    """the path denotes the argument tokens  tokens[1:]  (possibly copied into a list / tuple)"""
+    return len(x) >= 2 and x[0].startswith("param:") and x[1].startswith("slice:1:") and all(st in ("arg0:list", "arg0:tuple") for st in x[2:])
+
+
+def _returns_with_arguments(f: FuncInfo, p, g: C.CFG, rets):
+    """the returns that can be reached with a non-empty argument list: an early return for `not arguments` has no argument to type-check"""
+    def m(e):
+        if isinstance(e, ast.Name) and isinstance(e.ctx, ast.Load):
+            tr = _safe_trace(p, e)
+            if tr and all(_argument_list_path(x) for x in tr):
+                return "!noargs"
+        if isinstance(e, ast.Compare) and len(e.ops) == 1 and isinstance(e.comparators[0], ast.Constant) and e.comparators[0].value == 0 and \
+                isinstance(e.ops[0], (ast.Eq, ast.NotEq, ast.Gt)):
+            tr = _safe_trace(p, e.left)
+            if tr and all(x[-1] == "arg0:len" and _argument_list_path(x[:-1]) for x in tr):
+                return "noargs" if isinstance(e.ops[0], ast.Eq) else "!noargs"
+        return None
+    G = L.Guards(f, m)
+    if "noargs" not in G.atoms_seen:
+        return rets
+    live = G.reach({"noargs": False})
+    return [n for n in rets if n in live] or rets
+
+
+def _lookup_by_argument(f: FuncInfo, p) -> bool:
+    """some lookup  M[k]  where M is built from problem objects AND domain constants and k runs over the argument tokens tokens[1:]
+    (loop variable, comprehension variable, zip partner), not filtered"""
+    pm = L.parents_of(f)
+    for s in ast.walk(f.node):
+        if not (isinstance(s, ast.Subscript) and isinstance(s.ctx, ast.Load) and not isinstance(s.slice, ast.Slice)):
+            continue
+        tr = _safe_trace(p, s.value)
+        if not (any("attr:objects" in x for x in tr) and any("attr:constants" in x for x in tr)):
+            continue
+        keys = _safe_trace(p, s.slice)
+        if not any(len(x) >= 3 and x[0].startswith("param:") and x[1].startswith("slice:1:") and all(st in ARG_PASS for st in x[2:]) and
+                   any(st in ("elem", "item") for st in x[2:]) for x in keys):
+            continue
+        cur, filtered = s, False
+        while cur in pm:
+            cur = pm[cur]
+            if isinstance(cur, (ast.ListComp, ast.SetComp, ast.DictComp, ast.GeneratorExp)) and any(g_.ifs for g_ in cur.generators):
+                filtered = True
+        if filtered:
+            continue
+        # inside a statement loop: every turn passes the lookup (no `continue` in front of it) and the loop is not left early
+        g = C.cfg_of(f.node)
+        G0 = L.Guards(f, lambda e: None)
+        at = g.node_containing(s)
+        loops = [lp for lp in ast.walk(f.node) if isinstance(lp, (ast.For, ast.While)) and any(x is s for b in lp.body for x in ast.walk(b))]
+        if at is None or all(L.must_pass_in_loop(G0, {}, lp, {at}) and not L.leaves_loop_early(G0, {}, lp) for lp in loops):
+            return True
+    return False
+
+
+def _arity_decides(f: FuncInfo, p, g: C.CFG, rets) -> bool:
+    """an equality test of the two lengths exists and with unequal lengths no return is reachable (whatever the shape: guard clause, the
+    accepting branch nested under the test, raise after the if)"""
+    def m(e):
+        if isinstance(e, ast.Compare) and len(e.ops) == 1 and isinstance(e.ops[0], (ast.Eq, ast.NotEq)) and _is_arity_test(e, p):
+            return "same" if isinstance(e.ops[0], ast.Eq) else "!same"
+        return None
+    G = L.Guards(f, m)
+    if "same" not in G.atoms_seen:
+        return False
+    differ = G.reach({"same": False})
+    return bool(rets) and not any(n in differ for n in rets)
 
 
 def _local_helpers(repo: Repo, f: FuncInfo) -> List[FuncInfo]:
@@ -399,7 +486,8 @@ def rule_value(repo: Repo, rid: str = "C05.value", spec: str = "ProblemParser.pa
     else:
         r.ok({"value_text_judged_by": "float() only"})
     r.site(f.qn + " [store]")
-    stores = [n for n in ast.walk(f.node) if isinstance(n, ast.Assign) and any(isinstance(t, ast.Subscript) and _into(p, t.value, store_attr) for t in n.targets)]
+    is_store = _store_container(repo, f, p, store_attr)
+    stores = [n for n in ast.walk(f.node) if isinstance(n, ast.Assign) and any(isinstance(t, ast.Subscript) and is_store(t.value) for t in n.targets)]
     oks = False
     for s in stores:
         t = [t for t in s.targets if isinstance(t, ast.Subscript)][0]
@@ -413,6 +501,84 @@ def rule_value(repo: Repo, rid: str = "C05.value", spec: str = "ProblemParser.pa
         r.fail(Finding(rid, f, "fluent-store", f"the parsed fluent is not stored in {store_attr} under its own ground name"))
     r.require_sites(3)
     return r
+
+
+def _field_ctor_params(repo: Repo, attr: str):
+    """(class name, constructor, parameter) for every class whose constructor stores a parameter unchanged in the field `attr`"""
+    out = []
+    for cname in sorted(repo.classes):
+        init = repo.find_method(cname, "__init__")
+        if init is None or getattr(init, "node", None) is None or not init.params:
+            continue
+        me = init.params[0]
+        for n in ast.walk(init.node):
+            tg = n.targets if isinstance(n, ast.Assign) else [n.target] if isinstance(n, ast.AnnAssign) and n.value is not None else []
+            for t in tg:
+                if isinstance(t, ast.Attribute) and t.attr == attr and isinstance(t.value, ast.Name) and t.value.id == me and \
+                        isinstance(n.value, ast.Name) and n.value.id in init.params[1:]:
+                    out.append((cname, init, n.value.id))
+    return out
+
+
+def _origin_defs(f: FuncInfo, name: ast.Name, depth: int = 0) -> Set[int]:
+    """the definitions the value of a local name comes from, plain copies (`a = b`, parameter bindings of helpers in place) followed"""
+    g = C.cfg_of(f.node)
+    rd = L.rd_of(f)
+    at = g.node_containing(name)
+    out: Set[int] = set()
+    if at is None or depth > 8:
+        return out
+    for d in rd.defs_reaching(at, name.id):
+        st = g.stmt[d]
+        v = st.value if isinstance(st, (ast.Assign, ast.AnnAssign)) else None
+        plain = isinstance(v, ast.Name) and (isinstance(st, ast.AnnAssign) or (len(st.targets) == 1 and isinstance(st.targets[0], ast.Name)))
+        if plain and rd.defs_reaching(d, v.id):
+            out |= _origin_defs(f, v, depth + 1)
+        else:
+            out.add(d)
+    return out
+
+
+def _store_container(repo: Repo, f: FuncInfo, p, store_attr: str):
+    """predicate `expr denotes the container the parsed fluents are stored in`: the field `store_attr` of an object (ProblemParser:
+    problem.initial_state_fluents), or the local dict that is handed to the constructor parameter which becomes that field
+    (TrajectoryParser: State(fluents=<dict>) -> State.state_fluents).  The local's own name does not matter."""
+    ctor_args: List[ast.AST] = []
+    for cname, init, pname in _field_ctor_params(repo, store_attr):
+        for c in L.calls_in(f.node):
+            if isinstance(c.func, ast.Name) and c.func.id == cname:
+                a = L.arg_of(c, init, pname)
+                if a is not None:
+                    ctor_args.append(a)
+    arg_origins: Set[int] = set()
+    arg_locals: Set[str] = set()
+    for a in ctor_args:
+        for x in ast.walk(a):
+            if isinstance(x, ast.Name) and isinstance(x.ctx, ast.Load):
+                arg_origins |= _origin_defs(f, x)
+        for pth in _safe_trace(p, a):
+            for st in pth:
+                if st.startswith(("in:setval@", "in:setitem@", "in:setkey@")):
+                    arg_locals.add(st.split("@", 1)[1])
+
+    def is_store(e: ast.AST) -> bool:
+        base = e
+        while isinstance(base, (ast.Subscript, ast.Attribute)) and not (isinstance(base, ast.Attribute) and base.attr == store_attr):
+            base = base.value
+        if isinstance(base, ast.Attribute) and base.attr == store_attr:
+            return True
+        if any(f"attr:{store_attr}" in x for x in _safe_trace(p, e)):
+            return True
+        if isinstance(base, ast.Name) and ctor_args:
+            if _origin_defs(f, base) & arg_origins:
+                return True
+            if base.id in arg_locals or (L.aliases(f, {base.id}) & arg_locals):
+                return True
+        if not ctor_args:
+            return _into(p, e, store_attr)      # no constructor takes the field here: the former recognition (field / local of that name)
+        return False
+
+    return is_store
 
 
 def rule_trailingtype(repo: Repo, rid: str = "C05.trailingtype") -> RuleResult:
@@ -484,6 +650,10 @@ def rules(repo: Repo, tier: str) -> List[RuleResult]:
         rule_value(repo),
         c01.rule_dupkeys(repo, "C05.dupkeys", ["ProblemParser.parse_grounded_numeric_fluent"]),
         _rule_memo(repo, "C05.cache"),
+        U5.rule_gates(repo),
+        U5.rule_positions(repo),
+        U5.rule_pairing(repo),
+        U5.rule_walks(repo),
     ]
 
 
